@@ -231,6 +231,7 @@ type Job struct {
 	Prefix string   `json:"prefix"`
 	Focus  int      `json:"focus"`
 	Events []string `json:"events"`
+	Menu   []string `json:"menu"` // event alphabet of this exploration (empty: allEvents)
 }
 
 type Step struct {
@@ -254,6 +255,17 @@ type Result struct {
 var allEvents = []string{"pay1", "pay3", "pay2same", "spendOldest", "spendNewest", "spendAll", "spendPay",
 	"reorgEmpty", "reorgPay", "reorg2", "disable", "enable", "saveload"}
 
+// Configuration events (the operator edits the configuration while the index is off -
+// the documented "wallet off" / change / "wallet on" sequence): setmin:<v> sets
+// CFG.AllBalances.MinValue (0; below / at / above the values of existing outputs 999, 1000,
+// 100000; the start value 1000), setmap:<v> sets CFG.AllBalances.UseMapCnt. The value in
+// force is the one configured when the index was last switched on.
+var configEvents = []string{"setmin:0", "setmin:999", "setmin:1000", "setmin:1001", "setmin:100000", "setmin:100001",
+	"setmap:1", "setmap:3", "setmap:5"}
+
+// event alphabet of the configuration exploration
+var configMenu = append([]string{"pay1", "pay3", "pay2same", "spendOldest", "spendAll", "reorgEmpty", "disable", "enable"}, configEvents...)
+
 // ---------------------------------------------------------------- worker
 
 type world struct {
@@ -264,6 +276,9 @@ type world struct {
 	funding []refchain.Outpoint
 	X       addrDef
 	on      bool
+	cfgMin  uint64   // CFG.AllBalances.MinValue as configured now
+	effMin  uint64   // the value in force: configured when the index was last switched on
+	cfgMap  uint32   // CFG.AllBalances.UseMapCnt as configured now
 	saved   [32]byte // tip at which balances were last saved (LAST_SAVED_FNAME)
 	res     *Result
 	pos     int // event position (funding allocation, block tags)
@@ -493,8 +508,18 @@ func (w *world) connect(name string, txs []*reftx.Tx) {
 func (w *world) enabled() []string {
 	n := len(w.coinsOf(w.X.Script, w.tip()))
 	var l []string
-	for _, e := range allEvents {
+	menu := w.job.Menu
+	if len(menu) == 0 {
+		menu = allEvents
+	}
+	for _, e := range menu {
 		ok := true
+		if strings.HasPrefix(e, "setmin:") || strings.HasPrefix(e, "setmap:") {
+			var v uint64
+			fmt.Sscan(e[7:], &v)
+			// only while the index is off, and only real changes
+			ok = !w.on && (e[4] == 'i' && v != w.cfgMin || e[4] == 'a' && uint32(v) != w.cfgMap)
+		}
 		switch e {
 		case "spendOldest", "spendAll", "spendPay":
 			ok = n >= 1
@@ -578,6 +603,7 @@ func (w *world) event(name string) {
 	case "enable":
 		wallet.LoadBalancesFromUtxo()
 		w.on = true
+		w.effMin = w.cfgMin // LoadBalancesFromUtxo applies the configured minimum before it scans the set
 		w.step("enable", "")
 		w.oracle("enable")
 	case "saveload":
@@ -600,7 +626,25 @@ func (w *world) event(name string) {
 		w.step("saveload", r)
 		w.oracle("saveload")
 	default:
-		hfail("unknown event %q", name)
+		var v uint64
+		switch {
+		case strings.HasPrefix(name, "setmin:"):
+			fmt.Sscan(name[7:], &v)
+			common.LockCfg()
+			common.CFG.AllBalances.MinValue = v
+			common.UnlockCfg()
+			w.cfgMin = v
+		case strings.HasPrefix(name, "setmap:"):
+			fmt.Sscan(name[7:], &v)
+			common.LockCfg()
+			common.CFG.AllBalances.UseMapCnt = uint32(v)
+			common.UnlockCfg()
+			w.cfgMap = uint32(v)
+		default:
+			hfail("unknown event %q", name)
+		}
+		w.step(name, "")
+		w.oracle(name)
 	}
 	w.pos++
 }
@@ -639,7 +683,7 @@ func (w *world) oracle(after string) {
 	exp := map[string]*group{}
 	for o, c := range got {
 		ty := classify(c.Script)
-		if ty < 0 || c.Value < minVal {
+		if ty < 0 || c.Value < w.effMin {
 			continue
 		}
 		g := exp[string(c.Script)]
@@ -660,7 +704,7 @@ func (w *world) oracle(after string) {
 		}
 		want := map[string]bool{}
 		for o, c := range got {
-			if bytes.Equal(c.Script, a.Script) && c.Value >= minVal {
+			if bytes.Equal(c.Script, a.Script) && c.Value >= w.effMin {
 				cb := 0
 				if c.Coinbase {
 					cb = 1
@@ -787,7 +831,7 @@ func setDiff(want, have map[string]bool) string {
 func (w *world) stateKey() string {
 	t := w.tip()
 	var sb strings.Builder
-	fmt.Fprintf(&sb, "on=%v saved=%v rep=%s coins=", w.on, w.saved == t.Hash, w.rep())
+	fmt.Fprintf(&sb, "on=%v saved=%v rep=%s min=%d/%d map=%d coins=", w.on, w.saved == t.Hash, w.rep(), w.cfgMin, w.effMin, w.cfgMap)
 	age := func(h uint32) uint32 {
 		if t.Height-h > 2 {
 			return 2
@@ -920,6 +964,7 @@ func runJob(job *Job) (res *Result) {
 	common.Testnet = false
 	common.CFG.AllBalances.MinValue = minVal
 	common.CFG.AllBalances.UseMapCnt = useMapCnt
+	w.cfgMin, w.effMin, w.cfgMap = minVal, minVal, useMapCnt
 	common.CFG.AllBalances.SaveBalances = true
 	common.BlockChain = w.e.Ch
 	common.Last.Block = w.e.Ch.LastBlock()
@@ -1134,20 +1179,29 @@ type explorer struct {
 	harness                                                          []string
 }
 
-func (x *explorer) run(focus int, evs []string) *Result {
+// one exploration: a focus address type, an event alphabet, a depth
+type run struct {
+	name  string
+	focus int
+	menu  []string
+	depth int
+}
+
+func (x *explorer) run(rn run, evs []string) *Result {
 	x.sem <- struct{}{}
 	defer func() { <-x.sem }()
-	return x.exec(focus, evs)
+	return x.exec(rn, evs)
 }
 
 // exec runs one history; an infrastructure failure is retried once, after rebuilding
 // the prefix directory if it disappeared (scratch space is shared with other runs).
-func (x *explorer) exec(focus int, evs []string) *Result {
+func (x *explorer) exec(rn run, evs []string) *Result {
+	focus := rn.focus
 	for attempt := 0; ; attempt++ {
 		x.pmu.Lock()
 		dir := x.pdir[focus]
 		x.pmu.Unlock()
-		res := runWorker(&Job{Prefix: dir, Focus: focus, Events: evs})
+		res := runWorker(&Job{Prefix: dir, Focus: focus, Events: evs, Menu: rn.menu})
 		if res.Harness == "" || attempt >= 1 {
 			return res
 		}
@@ -1162,7 +1216,7 @@ func (x *explorer) exec(focus int, evs []string) *Result {
 	}
 }
 
-func (x *explorer) runLevel(focus int, tasks []*task) {
+func (x *explorer) runLevel(rn run, tasks []*task) {
 	var wg sync.WaitGroup
 	for _, t := range tasks {
 		if x.r.OverBudget() {
@@ -1173,24 +1227,26 @@ func (x *explorer) runLevel(focus int, tasks []*task) {
 		go func(t *task) {
 			defer wg.Done()
 			defer func() { <-x.sem }()
-			t.res = x.exec(focus, t.events())
+			t.res = x.exec(rn, t.events())
 		}(t)
 	}
 	wg.Wait()
 }
 
 // bfs explores all histories of one focus address up to depth modulo the state key.
-func (x *explorer) bfs(focus, depth int) {
-	fname := addrs[focus].Name
+func (x *explorer) bfs(rn run) {
+	depth := rn.depth
+	fname := rn.name
+	faddr := addrs[rn.focus].Name
 	r := x.r
 	seen := map[string]bool{}
 	root := &task{}
-	x.runLevel(focus, []*task{root})
+	x.runLevel(rn, []*task{root})
 	if root.res == nil {
 		return // budget
 	}
 	if root.res.Key != "" {
-		r.Report(root.res.Key, root.res.What, map[string]interface{}{"focus": fname, "events": []string{}, "trace": root.res.Trace})
+		r.Report(root.res.Key, root.res.What, map[string]interface{}{"focus": faddr, "run": fname, "events": []string{}, "trace": root.res.Trace})
 		return
 	}
 	if root.res.Harness != "" {
@@ -1210,7 +1266,7 @@ func (x *explorer) bfs(focus, depth int) {
 				tasks = append(tasks, &task{h: h, ev: e})
 			}
 		}
-		x.runLevel(focus, tasks)
+		x.runLevel(rn, tasks)
 		var next []hist
 		complete := true
 		for _, t := range tasks { // deterministic merge order
@@ -1238,14 +1294,14 @@ func (x *explorer) bfs(focus, depth int) {
 				// confirm in two more fresh processes before believing it
 				ok := true
 				for i := 0; i < 2; i++ {
-					if again := x.run(focus, evs); again.Key != t.res.Key {
+					if again := x.run(rn, evs); again.Key != t.res.Key {
 						ok = false
 					}
 				}
 				x.mu.Lock()
 				if ok {
 					x.confirmed++
-					r.Report(t.res.Key, t.res.What, map[string]interface{}{"focus": fname, "events": evs, "trace": t.res.Trace})
+					r.Report(t.res.Key, t.res.What, map[string]interface{}{"focus": faddr, "run": fname, "events": evs, "trace": t.res.Trace})
 				} else {
 					r.Unrepro = append(r.Unrepro, fmt.Sprintf("%s %v: %s", fname, evs, t.res.Key))
 				}
@@ -1309,7 +1365,7 @@ func main() {
 			t0 := time.Now()
 			workerCPU = 0
 			for i := 0; i < 20; i++ {
-				if res := x.run(3, evs); res.Harness != "" || res.Key != "" {
+				if res := x.run(run{focus: 3}, evs); res.Harness != "" || res.Key != "" {
 					fmt.Fprintln(ev.Out, "bench:", res.Harness, res.Key, res.What)
 				}
 			}
@@ -1323,16 +1379,16 @@ func main() {
 	// GetAllUnspent depend on the type. The deep exploration therefore runs on `deep`
 	// focus types, every other type is explored to `shallow` depth, and all other
 	// types are present as static background in every history.
-	deepDepth, shallowDepth := 5, 3
+	deepDepth, shallowDepth, configDepth := 5, 3, 5
 	deep := map[string]bool{"P2WSH": true}
 	r.Budget = 150 * time.Second
 	if r.Thorough() {
-		deepDepth, shallowDepth = 6, 5
+		deepDepth, shallowDepth, configDepth = 6, 5, 7
 		deep = map[string]bool{"P2WSH": true, "P2PKH": true}
 		r.Budget = 25 * time.Minute
 	}
 	if *depthFlag > 0 {
-		deepDepth = *depthFlag
+		deepDepth, configDepth = *depthFlag, *depthFlag
 	}
 	if b := os.Getenv("C17_BUDGET"); b != "" {
 		r.Budget, _ = time.ParseDuration(b)
@@ -1350,8 +1406,17 @@ func main() {
 		wg.Add(1)
 		go func(focus, d int) {
 			defer wg.Done()
-			x.bfs(focus, d)
+			x.bfs(run{name: addrs[focus].Name, focus: focus, depth: d})
 		}(focus, d)
+	}
+	// configuration exploration: block/reorg events combined with configuration changes
+	// while the index is off, on one focus type (not the deep one)
+	if f := os.Getenv("C17_FOCUS"); f == "" || f == "config" {
+		wg.Add(1)
+		go func() {
+			defer wg.Done()
+			x.bfs(run{name: "config/P2PKH", focus: 0, menu: configMenu, depth: configDepth})
+		}()
 	}
 	wg.Wait()
 	cleanup()
@@ -1415,7 +1480,7 @@ func replay(x *explorer, file string) int {
 	if focus < 0 {
 		ev.HarnessError("unknown focus %q", rec.Replay.Focus)
 	}
-	res := x.run(focus, rec.Replay.Events)
+	res := x.run(run{focus: focus, menu: append(append([]string{}, allEvents...), configEvents...)}, rec.Replay.Events)
 	for _, s := range res.Trace {
 		fmt.Fprintf(ev.Out, "  %s -> %s\n", s.Ev, s.Result)
 	}
